@@ -1,6 +1,7 @@
 """C08 - seeded sample wrappers make sample i a pure function of (data, config, seed, i).
 Model-based check over generated operation sequences (access / perturb globals / rebuild / dataloader pass)."""
 import random
+import weakref
 
 import numpy as np
 import torch
@@ -9,6 +10,8 @@ from hypothesis import strategies as st
 from kappadata.datasets import KDDataset, KDSubset, KDWrapper
 from vlib import treg
 from vlib.core import Case, Facet, Refused, Violation
+
+_CALLER_CONFIGS = {}  # id(multi-view wrapper) -> (weakref to it, the config objects its caller passed and still holds)
 
 # thorough-tier budgets of every facet are multiplied by this factor (sized for ~5-8 min on 16 cores)
 THOROUGH_SCALE = 4
@@ -91,7 +94,11 @@ def build_stack(w):
     elif kind == "multiview":
         cfg_objs = [(c["n_views"], PlainCallable() if c["t"] == "plain" else treg.build(c["t"])) for c in w["configs"]]
         ds = W.KDMultiViewWrapper(base, configs=cfg_objs, seed=seed)
-        ds.__dict__["_verif_cfg_objs"] = cfg_objs  # what the caller still holds
+        # what the caller still holds - kept outside the dataset's object graph (it is not part of the dataset: C09 walks everything
+        # reachable from a dataset and would otherwise judge the caller's untouched originals as worker state)
+        for k in [k for k, (r, _) in _CALLER_CONFIGS.items() if r() is None]:
+            del _CALLER_CONFIGS[k]
+        _CALLER_CONFIGS[id(ds)] = (weakref.ref(ds), cfg_objs)
     elif kind == "xy_shared":
         # one transform object used for input and target with the same seed (consistent augmentation of x and y)
         shared_t = treg.build(w["t"])
@@ -218,7 +225,8 @@ def check(spec):
             top = ds
             while not isinstance(top, W2.KDMultiViewWrapper) and hasattr(top, "dataset"):
                 top = top.dataset
-            objs = getattr(top, "__dict__", {}).get("_verif_cfg_objs")
+            held = _CALLER_CONFIGS.get(id(top))
+            objs = held[1] if held is not None and held[0]() is top else None
             if objs is not None:
                 second = W2.KDMultiViewWrapper(ImgRoot(w["n"], w["key"], w.get("fam", "img")), configs=objs, seed=op[1] % 1000)
                 for cfg in second.transform_configs:
